@@ -461,6 +461,36 @@ func ruleMargin(c *Ctx) {
 				}
 			}
 			c.check(cp, name+":copy", mk.Pos(), "old contents copied", "grow does not copy the old contents")
+			// returns that do not allocate: only when the margin exists already
+			var caps []Lin
+			for _, b := range grow.Blocks {
+				for _, in := range b.Instrs {
+					if cc := isBuiltinCall(in, "cap"); cc != nil {
+						if f := loadedField(cc.Call.Args[0]); f != nil && f.Name() == "Data" {
+							caps = append(caps, fi.lin(cc))
+						}
+					}
+				}
+			}
+			okR := true
+			for _, b := range grow.Blocks {
+				if _, isRet := b.Instrs[len(b.Instrs)-1].(*ssa.Return); !isRet {
+					continue
+				}
+				if b == mk.Block() || mk.Block().Dominates(b) {
+					continue
+				}
+				proved := false
+				for _, cp := range caps {
+					if fi.proveAt(t.addc(7).sub(cp), b, nil) {
+						proved = true
+					}
+				}
+				if !proved {
+					okR = false
+				}
+			}
+			c.check(okR, name+":keep", grow.Pos(), "grow returns without allocating only when t + 7 ≤ cap(Data)", "grow can return without allocating although t + 7 ≤ cap(Data) does not hold: the margin is lost")
 		}
 		// call sites: argument ≤ BufferSize
 		n := 0
@@ -482,6 +512,67 @@ func ruleMargin(c *Ctx) {
 						}
 					}
 					c.check(ok2, key, call.Pos(), "grow("+t.String()+") with 0 ≤ t ≤ BufferSize", "grow is called with t = "+t.String()+" not bounded by 0 ≤ t ≤ BufferSize")
+					// the call may be bypassed only when the margin already exists: every edge
+					// into the block following the call that does not come through the call
+					// carries t + 7 ≤ cap(Data)
+					gkey := fmt.Sprintf("%s:grow-guard#%d", fnName(fn), n)
+					if len(b.Succs) != 1 {
+						c.fail(gkey, call.Pos(), "unexpected control flow after grow")
+						continue
+					}
+					m := b.Succs[0]
+					var caps []Lin
+					for _, b2 := range fn.Blocks {
+						for _, in2 := range b2.Instrs {
+							if cc := isBuiltinCall(in2, "cap"); cc != nil {
+								if f := loadedField(cc.Call.Args[0]); f != nil && f.Name() == "Data" && (b2 == b || b2.Dominates(b)) {
+									caps = append(caps, fi2.lin(cc))
+								}
+							}
+						}
+					}
+					okG := true
+					detail := ""
+					nBy := 0
+					for _, p := range m.Preds {
+						if p == b || b.Dominates(p) {
+							continue
+						}
+						nBy++
+						cs := fi2.edgeConds(p, m)
+						proved := false
+						for _, cp := range caps {
+							if fi2.proveLE0(t.addc(7).sub(cp), cs, nil, map[string]bool{}, 0) {
+								proved = true
+							}
+						}
+						if !proved {
+							okG = false
+							detail = fmt.Sprintf("edge from block %d bypasses grow under %s", p.Index, factStrings(fi2.factsOf(cs)))
+						}
+					}
+					c.check(okG, gkey, call.Pos(), fmt.Sprintf("grow(t) is bypassed only under t + 7 ≤ cap(Data) (%d bypass edges)", nBy),
+						"the buffer can be extended to t = "+t.String()+" bytes without grow although t + 7 ≤ cap(Data) is not established ("+detail+"): the 7-byte margin behind the data is lost and the 8-byte loads of the hash parsers slice beyond the capacity")
+					// the data stored afterwards is no longer than t
+					for _, b3 := range fn.Blocks {
+						if !(b3 == m || m.Dominates(b3)) {
+							continue
+						}
+						for _, in3 := range b3.Instrs {
+							st, isSt := in3.(*ssa.Store)
+							if !isSt {
+								continue
+							}
+							if f := fieldOfAddr(st.Addr); f == nil || f.Name() != "Data" {
+								continue
+							}
+							if app := isBuiltinCall(valueInstr(st.Val), "append"); app != nil {
+								nl := fi2.lenOf(st.Val)
+								okL := fi2.proveAt(nl.sub(t), b3, nil)
+								c.check(okL, fmt.Sprintf("%s:grow-covers#%d", fnName(fn), n), st.Pos(), "the extended data is no longer than the t that was ensured", "the data stored after grow(t) can be longer ("+nl.String()+") than the ensured t = "+t.String())
+							}
+						}
+					}
 				}
 			}
 		}
@@ -868,4 +959,9 @@ func ruleWrapOrder(c *Ctx) {
 		}
 	}
 	c.check(okLoop, name+":retry-iff-data", readFrom.Pos(), "Parse is retried exactly when ReadFrom delivered k > 0 bytes", "the retry is not conditioned on k != 0 bytes read")
+}
+
+func valueInstr(v ssa.Value) ssa.Instruction {
+	in, _ := v.(ssa.Instruction)
+	return in
 }
